@@ -133,6 +133,15 @@ def chk_stencil(case, acc, seed):
                 acc.violation('centroid:signed', sub, f'{gs} != sum(i * img) / sum(img) = {es} for an image with negative samples')
             if (sgn < 0).any():
                 acc.cls('centroid:signed')
+    # "everything" slices: the whole array sits at offset (0, 0)
+    for sl in (Ellipsis, (slice(0, shape[0]), slice(0, shape[1]))):
+        try:
+            off = tuple(int(o) for o in lh.slice_offset(sl, shape))
+        except Exception as e:
+            acc.violation(f'slice_offset:everything:raises:{type(e).__name__}', dict(case, slice=repr(sl)), repr(e))
+            continue
+        if off != (0, 0):
+            acc.violation('slice_offset:everything', dict(case, slice=repr(sl)), f'slice_offset({sl!r}, {shape}) = {off}, the whole array has offset (0, 0)')
     acc.cls('stencil')
     acc.case(case, outcome='stencil')
 
